@@ -322,3 +322,72 @@ func c11SingleHighByte(r *fw.Rec) {
 	}
 	r.Nontrivial(fmt.Sprintf("single-high-byte/%d", rng.Uint64()))
 }
+
+// c11DenseRuns: long runs of ONE code of one table (every data code of every table, among them the
+// four two-character codes of the punctuation table) between two letters: a stream whose text is
+// much longer - or much shorter - per bit than a mix of codes, at run lengths 1..200.
+func c11DenseRuns(r *fw.Rec, table azref.Table) {
+	toTable := func(e *azref.Encoder) {
+		switch table {
+		case azref.Lower:
+			e.Latch(azref.Lower)
+		case azref.Mixed:
+			e.Latch(azref.Mixed)
+		case azref.Digit:
+			e.Latch(azref.Digit)
+		case azref.Punct:
+			e.Latch(azref.Mixed)
+			e.Latch(azref.Punct)
+		}
+	}
+	back := func(e *azref.Encoder) {
+		switch table {
+		case azref.Lower:
+			e.Latch(azref.Mixed)
+			e.Latch(azref.Upper)
+		case azref.Mixed, azref.Digit, azref.Punct:
+			e.Latch(azref.Upper)
+		}
+	}
+	ncodes := 32
+	if table == azref.Digit {
+		ncodes = 16
+	}
+	for code := 0; code < ncodes; code++ {
+		for _, n := range []int{1, 2, 6, 7, 20, 60, 200} {
+			e := azref.NewEncoder()
+			ok := true
+			func() {
+				defer func() {
+					if recover() != nil {
+						ok = false // not a data code of this table
+					}
+				}()
+				e.Char(2) // 'A'
+				toTable(e)
+				for i := 0; i < n; i++ {
+					e.Char(code)
+				}
+				back(e)
+				e.Char(3) // 'B'
+			}()
+			if !ok {
+				break
+			}
+			want := azLatin1(e.Text())
+			got, err := azdec.NewDecoder().HighLevelDecode(e.Bits())
+			r.Evals(1)
+			info := map[string]interface{}{"table": table.String(), "code": code, "repeats": n, "tokens": azTraceHead(e.Trace(), 12), "text": trunc(want, 80)}
+			if err != nil {
+				r.Violation("model-mismatch", "aztec.highlevel:error", fmt.Sprintf("HighLevelDecode failed on 'A', %d x code %d of table %s, 'B' (%d bits): %v", n, code, table, e.Len(), err), info)
+				return
+			}
+			if got != want {
+				r.Violation("model-mismatch", "aztec.highlevel:other-text", fmt.Sprintf("HighLevelDecode of 'A', %d x code %d of table %s, 'B' returned %q, standard %q", n, code, table, trunc(got, 60), trunc(want, 60)), info)
+				return
+			}
+			r.Tally("highlevel_dense_single_code_runs")
+		}
+	}
+	r.Nontrivial("dense-runs/" + table.String())
+}
